@@ -697,10 +697,12 @@ def process_recipes(proc):
     def strategy(tier):
         @st.composite
         def rec(draw):
-            n = _steps(draw, tier)
+            jit = draw(st.integers(0, 7)) != 0
+            # op-by-op execution compiles every primitive once per array shape: keep to two lengths in the quick tier
+            n = _steps(draw, tier) if jit or tier != "quick" else draw(st.sampled_from([2, 5]))
             r = {"proc": proc, "n": n, "dt": _dt(draw, n), "sigma": _param(draw, SIG, n),
                  "seed": draw(SEED), "as0d": draw(st.booleans()), "generic_single": draw(st.booleans()),
-                 "jit": draw(st.integers(0, 7)) != 0, "wrapper": draw(st.booleans())}
+                 "jit": jit, "wrapper": draw(st.booleans())}
             if proc == "ou":
                 r["gamma"] = _param(draw, GAM, n)
             if proc == "iwp":
@@ -755,7 +757,7 @@ def model_recipes(tier):
     @st.composite
     def rec(draw):
         proc = draw(st.sampled_from(["wiener", "iwp", "ou"]))
-        n = draw(st.sampled_from([1, 2, 4, 7, 12] if tier == "quick" else list(range(1, 13))))
+        n = draw(st.sampled_from([1, 3, 3, 6, 6] if tier == "quick" else list(range(1, 13))))
         r = {"proc": proc, "n": n, "dt": _dt(draw, n), "name": draw(st.sampled_from(["wp", "iwp", "oup", "gm", "xi"])),
              "seed": draw(SEED), "jit": draw(st.integers(0, 5)) == 0, "nsteps_too": draw(st.booleans()),
              "sigma": _hyper(draw, SIG, n)}
@@ -763,7 +765,7 @@ def model_recipes(tier):
             r["gamma"] = _hyper(draw, GAM, n)
         if proc == "iwp":
             r["asp"] = _hyper(draw, ASP, n, allow_none=True)
-        xk = draw(st.sampled_from(["fix", "tuple", "model"] + (["none", "none"] if proc == "ou" else [])))
+        xk = draw(st.sampled_from(["fix", "tuple", "model"] + (["none", "none", "none"] if proc == "ou" else [])))
         P = S.dyadic_nz(0.25, 2.0, 4, signed=False)
         if xk == "none":
             r["x0"] = {"k": "none"}
